@@ -355,7 +355,8 @@ func (pc ParseContext) compileArrow(ctx context.Context, b ast.Branch, name stri
 			case "nest":
 				expr = parseNest(expr, branch["nest"].(ast.One).Node.(ast.Branch))
 			case "unnest":
-				panic("unfinished")
+				attr := branch["unnest"].(ast.One).Node.One("IDENT").One("").Scanner()
+				expr = rel.NewUnnestExpr(attr, expr, attr.String())
 			case "ARROW":
 				op := d.(ast.One).Node.One("").(ast.Leaf).Scanner()
 				f := binops[op.String()]
